@@ -45,6 +45,7 @@ type c15Mod struct {
 	factories []string // globals for which a pub function mk_<global>() returns a closure that marks and returns it
 	hasApply  bool     // pub fn apply_<mod>(cb: fn() -> str) -> str { cb() }
 	boom      string   // "-" or the global that pub fn boom<mod>() prints and marks before it throws ("" = no such function)
+	extra     string   // verbatim source appended after the imports
 	hasGuard  bool     // pub fn guard<mod>(cb: fn() -> null): calls cb inside try, catches what it throws, then uses its own global and function
 }
 
@@ -104,7 +105,39 @@ func (m *c15Mod) addImport(from, item string) {
 }
 
 var c15FnNames = []string{"f", "g", "h"}
-var c15GlobNames = []string{"x", "y"}
+var c15GlobNames = []string{"x", "y", "slots"}
+
+// c15IsList: the global `slots` is a list with the same literal initialiser in every module that has it
+// and is marked in place (push); the others are strings marked by reassignment.
+func c15IsList(gn string) bool { return gn == "slots" }
+
+func c15Init(mod, gn string) string {
+	if c15IsList(gn) {
+		return "[0, 0, 0]"
+	}
+	return mod + "." + gn
+}
+
+func c15InitSrc(mod, gn string) string {
+	if c15IsList(gn) {
+		return "[0, 0, 0]"
+	}
+	return "\"" + mod + "." + gn + "\""
+}
+
+func c15MarkSrc(gn string) string {
+	if c15IsList(gn) {
+		return gn + ".push(1);"
+	}
+	return gn + " = " + gn + " + \"+\";"
+}
+
+func c15Mark(v string) string {
+	if strings.HasPrefix(v, "[") {
+		return strings.TrimSuffix(v, "]") + ", 1]"
+	}
+	return v + "+"
+}
 
 // c15Chain: main -> ma -> mb -> mc (-> md): every module is reachable from the entry module
 // only through the previous one, all define a global x and the functions overlap in nothing else.
@@ -290,8 +323,11 @@ func c15Gen(seed int, illegal int) *c15Graph {
 	// the library's globals; a closure made in main and called by a library must use main's
 	for i := 1; i < len(g.mods); i++ {
 		m := g.mods[i]
-		if len(m.globals) > 0 && r.Intn(3) == 0 {
-			gn := m.globals[r.Intn(len(m.globals))]
+		if len(m.globals) > 0 && r.Intn(3) == 0 && !c15IsList(m.globals[0]) {
+			gn := m.globals[0]
+			if len(m.globals) > 1 && !c15IsList(m.globals[1]) && r.Intn(2) == 0 {
+				gn = m.globals[1]
+			}
 			name := "mk" + gn + m.name
 			// a global that another module imports is never mutated (the two backends differ in
 			// whether an imported global is a copy or a reference; that is not this property's business)
@@ -307,10 +343,10 @@ func c15Gen(seed int, illegal int) *c15Graph {
 				late = append(late, "closure:"+m.name+":"+gn)
 			}
 		}
-		if len(main.globals) > 0 && r.Intn(4) == 0 {
+		if len(main.globals) > 0 && !c15IsList(main.globals[0]) && r.Intn(4) == 0 {
 			m.hasApply = true
 			main.addImport(m.name, "apply"+m.name)
-			late = append(late, "callback:"+m.name+":"+main.globals[r.Intn(len(main.globals))])
+			late = append(late, "callback:"+m.name+":"+main.globals[0])
 		}
 	}
 	// exceptions crossing a module boundary: an imported function that throws is caught by the importer,
@@ -467,6 +503,27 @@ func c15Gen(seed int, illegal int) *c15Graph {
 	case 6:
 		main.addImport("main", "main")
 		g.illegal = "self-import"
+	case 9, 10: // an item that a module merely imported is not one of its own pub items
+		for len(g.mods) < 3 {
+			g.mods = append(g.mods, &c15Mod{name: "mz", pubGlob: map[string]bool{}})
+		}
+		def, via := g.mods[len(g.mods)-1], g.mods[1] // via imports from def (libraries import from later ones)
+		if illegal == 9 {
+			via.extra += fmt.Sprintf("import { type T%s } from %s;\npub fn usesT%s() { let q: T%s = 2; println(\"%s.usesT\", q); }\n", def.name, def.name, def.name, def.name, via.name)
+			main.addImport(via.name, "type T"+def.name)
+			g.illegal = "reexported-type"
+		} else {
+			def.fns = append(def.fns, c15Fn{name: "orig", pub: true})
+			via.addImport(def.name, "orig")
+			via.fns = append(via.fns, c15Fn{name: "usesorig", pub: true, callees: []string{"orig"}})
+			main.addImport(via.name, "orig")
+			g.illegal = "reexported-function"
+		}
+	case 11: // a builtin module has the value but no type of that name; a library imports the value first
+		lib.extra += fmt.Sprintf("import { assert_eq } from testing;\npub fn chk%s() { assert_eq(1, 1); }\n", lib.name)
+		main.addImport(lib.name, "chk"+lib.name)
+		main.addImport("testing", "type assert_eq")
+		g.illegal = "builtin-type-for-value"
 	}
 	return g
 }
@@ -504,12 +561,13 @@ func (g *c15Graph) sources() Program {
 		for _, from := range m.impOrder {
 			fmt.Fprintf(&b, "import { %s } from %s;\n", strings.Join(m.imports[from], ", "), from)
 		}
+		b.WriteString(m.extra)
 		for _, gn := range m.globals {
 			pub := ""
 			if m.pubGlob[gn] {
 				pub = "pub "
 			}
-			fmt.Fprintf(&b, "%slet %s = \"%s.%s\";\n", pub, gn, m.name, gn)
+			fmt.Fprintf(&b, "%slet %s = %s;\n", pub, gn, c15InitSrc(m.name, gn))
 		}
 		for _, f := range m.fns {
 			pub := ""
@@ -530,7 +588,7 @@ func (g *c15Graph) sources() Program {
 			}
 			b.WriteString(open)
 			if f.global != "" {
-				fmt.Fprintf(&b, "    println(\"%s.%s\", %s);\n    %s = %s + \"+\";\n", m.name, f.name, f.global, f.global, f.global)
+				fmt.Fprintf(&b, "    println(\"%s.%s\", %s);\n    %s\n", m.name, f.name, f.global, c15MarkSrc(f.global))
 			} else {
 				fmt.Fprintf(&b, "    println(\"%s.%s\", \"-\");\n", m.name, f.name)
 			}
@@ -555,7 +613,7 @@ func (g *c15Graph) sources() Program {
 		if m.boom == "-" {
 			fmt.Fprintf(&b, "pub fn boom%s() {\n    println(\"%s.boom\", \"-\");\n    throw(\"boom-%s\");\n}\n", m.name, m.name, m.name)
 		} else if m.boom != "" {
-			fmt.Fprintf(&b, "pub fn boom%s() {\n    println(\"%s.boom\", %s);\n    %s = %s + \"+\";\n    throw(\"boom-%s\");\n}\n", m.name, m.name, m.boom, m.boom, m.boom, m.name)
+			fmt.Fprintf(&b, "pub fn boom%s() {\n    println(\"%s.boom\", %s);\n    %s\n    throw(\"boom-%s\");\n}\n", m.name, m.name, m.boom, c15MarkSrc(m.boom), m.name)
 		}
 		if m.hasGuard {
 			fmt.Fprintf(&b, "pub fn guard%s(cb: fn() -> null) {\n    try {\n        cb();\n    } catch e {\n        println(\"%s.guard caught\", e.message);\n    }\n", m.name, m.name)
@@ -623,7 +681,7 @@ func (g *c15Graph) expected() []string {
 	vals := map[string]string{}
 	for _, m := range g.mods {
 		for _, gn := range m.globals {
-			vals[m.name+"."+gn] = m.name + "." + gn
+			vals[m.name+"."+gn] = c15Init(m.name, gn)
 		}
 	}
 	var out []string
@@ -644,7 +702,7 @@ func (g *c15Graph) expected() []string {
 		if f.global != "" {
 			k := def.name + "." + f.global
 			out = append(out, fmt.Sprintf("%s.%s %s", def.name, f.name, vals[k]))
-			vals[k] += "+"
+			vals[k] = c15Mark(vals[k])
 		} else {
 			out = append(out, fmt.Sprintf("%s.%s -", def.name, f.name))
 		}
@@ -693,7 +751,7 @@ func (g *c15Graph) expected() []string {
 				out = append(out, fmt.Sprintf("%s.boom -", m.name))
 			} else {
 				out = append(out, fmt.Sprintf("%s.boom %s", m.name, vals[m.name+"."+m.boom]))
-				vals[m.name+"."+m.boom] += "+"
+				vals[m.name+"."+m.boom] = c15Mark(vals[m.name+"."+m.boom])
 			}
 			out = append(out, "main caught boom-"+m.name)
 			mainOwn("in catch")
@@ -875,7 +933,7 @@ func planC15(t *testing.T, tier string, seed uint64) ([]RunSpec, error) {
 		gseed := int(simrt.Mix(seed, uint64(gi)) % 1000000)
 		for backend := 0; backend < 2; backend++ {
 			add(map[string]int{"g": gseed, "backend": backend, "illegal": 0}, nil, orders)
-			ill := 1 + gi%8
+			ill := 1 + gi%11
 			add(map[string]int{"g": gseed, "backend": backend, "illegal": ill}, nil, 1+orders/4)
 			if gi%4 == 1 {
 				add(map[string]int{"g": gseed, "backend": backend, "illegal": 100}, nil, 1+orders/2)
